@@ -221,7 +221,16 @@ class C19(Prop):
         from vf.props.c01 import evaluate_against_oracle
 
         g0 = G(SeedSource(case["seed"]), Opts(gauss=True))
-        leaf = gauss_leaf(g0, set(g0.sizes))
+        if case["pick"] % 3 == 0:
+            # three or four integer inputs, often of equal size: a permutation that is not its own inverse needs three
+            eq = g0.pick([2, 2, 3])
+            for n_ in g0.sizes:
+                if g0.chance(0.7):
+                    g0.sizes[n_] = eq
+                g0.sizes[n_] = min(g0.sizes[n_], 3)
+            leaf = gauss_leaf(g0, set(g0.sizes), max_ints=4, max_dim=3)
+        else:
+            leaf = gauss_leaf(g0, set(g0.sizes))
         t = build(leaf)
         if not hasattr(t, "white_vec"):
             raise Decline("constructor returned a mixture")
@@ -259,9 +268,31 @@ class C19(Prop):
             m = proto.materialize(x)
         except Exception as e:
             raise Decline("materialize-raised:" + innermost_funsor_frame(e))
+        self.compare_materialized(node, m, x, stt, case)
+        # the same prototype materialises a second expression whose inputs re-use the names with other sizes
+        g1 = G(SeedSource(case["seed"] + 17), Opts(max_depth=2))
+        for n_ in g1.sizes:
+            g1.sizes[n_] = (g0.sizes.get(n_, 1) % 4) + 1
+        node2 = g1.index_expr((n, ()), 2, set(g1.sizes))
+        try:
+            with I.lazy:
+                x2 = build(node2)
+            m2 = proto.materialize(x2)
+        except Exception as e:
+            raise Decline("second-materialize-raised:" + innermost_funsor_frame(e))
+        stt.count("second-use-of-the-prototype")
+        self.compare_materialized(node2, m2, x2, stt, case)
+
+    def compare_materialized(self, node, m, x, stt, case):
+        from funsor import Tensor
+        from vf.build import eval_at
+
         inputs, out = typeof(node)
         if not set(m.inputs) <= set(inputs):
             raise Violation("materialize-inputs", f"{list(m.inputs)} vs {sorted(inputs)}: {show(node)}")
+        for k_, d_ in m.inputs.items():
+            if d_.dtype != inputs[k_][0] or tuple(d_.shape) != tuple(inputs[k_][1]):
+                raise Violation("materialize-input-domain", f"input {k_} has domain {d_}, the expression has {inputs[k_]}: {show(node)}")
         orc = Oracle()
         for pt in int_points(inputs):
             try:
